@@ -8,6 +8,7 @@ import (
 	"strings"
 	"sync"
 
+	"github.com/pingcap/advanced-statefulset/client/apis/apps/v1/helper"
 	utilruntime "k8s.io/apimachinery/pkg/util/runtime"
 )
 
@@ -136,4 +137,24 @@ func desiredSet(r int, slots []int) map[int]bool {
 		}
 	}
 	return d
+}
+
+
+// staleRevAnnotations: the annotations a ControllerRevision recorded at an earlier time carries. newRevision copies the set's
+// annotations of that moment onto the revision and nothing refreshes them, so a stored revision usually holds an outdated
+// delete-slots value (and possibly an old pause flag). The controller must not read them back.
+func staleRevAnnotations(name string) map[string]string {
+	h := 0
+	for _, ch := range name {
+		h = h*31 + int(ch)
+	}
+	if h < 0 {
+		h = -h
+	}
+	slots := []string{"[0]", "[1,2]", "[0,1,2,3]", "[2]", "[1]", "[0,3,5]"}[h%6]
+	a := map[string]string{helper.DeleteSlotsAnn: slots, "example.com/recorded": "earlier"}
+	if h%5 == 0 {
+		a[helper.DeleteSlotsAnn] = "oops"
+	}
+	return a
 }
